@@ -237,7 +237,8 @@ impl ReuseOracle {
             Read::In(i, f) => self.last_write.get(&(*i, *f)).is_some_and(|w| *w > t),
             Read::Call(lk) => {
                 let Some(c) = self.recs.get(lk) else { return true };
-                if !c.alive || c.hist.is_empty() {
+                if !c.alive || c.hist.is_empty() || c.kind.is_cycle_kind() {
+                    // (cycle members: iteration and dependency flattening are not modelled)
                     return true;
                 }
                 if let LKey::Node(n, _) = lk {
@@ -790,7 +791,7 @@ impl Oracle for ReuseOracle {
                 out.viol("ts_entries_mismatch", step, format!("entries() lists {listed:x?} but live structs are {live:x?}"));
             }
         }
-        if self.modes.untracked_rule && info.kind == "query" && info.ok {
+        if self.modes.untracked_rule && info.kind == "query" && info.ok && !self.prog.is_cyclic() {
             if let Some((n, arg)) = info.node {
                 let mut ev = Eval::new(&self.prog, world);
                 ev.eval_node(n, arg);
@@ -826,7 +827,7 @@ impl Oracle for ReuseOracle {
                 }
             }
         }
-        if self.will_execute != self.execs && info.ok {
+        if self.will_execute != self.execs && info.ok && !self.prog.is_cyclic() {
             out.viol("harness_will_execute_mismatch", step, format!("WillExecute events {} != body executions {}", self.will_execute, self.execs));
             self.will_execute = self.execs;
         }
